@@ -422,7 +422,29 @@ function freshName(rng, p, prefix) {
   for (;;) { const n = prefix + rng.below(1000); if (!p[1].some((d) => d[1] === n)) return n; }
 }
 const REWRITES = ["perm-members", "perm-props", "perm-decls", "parens", "readonly", "regroup-union", "wrap-id", "intro-alias", "inline-alias", "rename", "iface-alias", "jsdoc"];
-function withJsdoc(src, rng) { return src.split("\n").map((l) => (/^(type|interface) /.test(l) && rng.chance(1, 2) ? "/** doc " + rng.below(100) + " */\n" + l : l)).join("\n"); }
+// JSDoc in front of declarations and — half of the time — at token boundaries INSIDE types as well (before a union member, a
+// parenthesised group, a type argument, a property's type): a comment is a comment wherever it stands
+function jsdocInline(src, rng) {
+  let out = "", i = 0, k = 0;
+  while (i < src.length) {
+    const c = src[i];
+    if (c === '"' || c === "'" || c === "`") { // skip a string / template literal
+      let j = i + 1;
+      while (j < src.length && src[j] !== c) j += src[j] === "\\" ? 2 : 1;
+      out += src.slice(i, j + 1); i = j + 1; continue;
+    }
+    if (src.startsWith("/*", i)) { const j = src.indexOf("*/", i + 2); const e = j < 0 ? src.length : j + 2; out += src.slice(i, e); i = e; continue; }
+    let hit = null;
+    for (const pat of ["| ", ": ", ", ", "= ", "& ", "<"]) if (src.startsWith(pat, i) && !(pat === "= " && src[i - 1] === "=") && !(pat === "<" && src[i + 1] === "=")) { hit = pat; break; }
+    if (hit) { out += hit; i += hit.length; if (rng.chance(1, 10)) out += "/** d" + (k++) + " */ "; continue; }
+    out += c; i++;
+  }
+  return out;
+}
+function withJsdoc(src, rng) {
+  const t = src.split("\n").map((l) => (/^(type|interface) /.test(l) && rng.chance(1, 2) ? "/** doc " + rng.below(100) + " */\n" + l : l)).join("\n");
+  return rng.chance(1, 2) ? jsdocInline(t, rng) : t;
+}
 export function genRewrite(rng, params) {
   const p = genProg(rng);
   const nvals = Number(params[0] || 12);
